@@ -63,6 +63,14 @@ CHECKS = {
         "Lock-step delivery; rational cancellation through nested divisions and intermediate overflow with a representable final value are excluded and counted.",
         "DESIGN.md section 3 C13",
     ),
+    "C06": (
+        "Hypothesis PBT over delivery schedules owned by the harness (virtual-time loop): positional value encoding makes every output decode to the input ticks it used",
+        "Per-stream start offsets, send/settle interleavings and the consumer's start point are generated values; four formula "
+        "shapes (builder sum, string sum, nested composition, three-phase). Every output must equal the formula on the inputs "
+        "of its own timestamp and the output timeline must be gap-free. Exploration level.",
+        "Input streams individually ordered and gap-free; no receiver overflow (interpreter skips such sends).",
+        "DESIGN.md section 3 C06",
+    ),
     "C09": (
         "Hypothesis model-based testing: update/query histories against a sliding dict model, invariant after every step (list, numpy and MovingWindow containers)",
         "Operation histories (in/out of order, off-grid timestamps, gaps, jumps beyond capacity, None/NaN, index and unaligned "
